@@ -20,11 +20,16 @@
 (*   Dispatch  outcome of SessionManager.HandlePacket on a fresh connection: "Reply" | "Error"  *)
 (*   both with panicked, timedOut, allocKiB (runtime.MemStats.TotalAlloc delta of the call)     *)
 (* C05 statement: no panic, no hang on a finite stream, allocation per call at most             *)
-(* K * MaxBody + Slack, outcome is a packet / an error / a reply.                               *)
+(* K * MaxBody + Slack (K fixed per stage), outcome is a packet / an error / a reply.           *)
 EXTENDS VLib
 
-CONSTANTS MaxBodyKiB, K, SlackKiB
-BoundKiB == K * MaxBodyKiB + SlackKiB
+CONSTANTS MaxBodyKiB, KRead, KDispatch, SlackKiB
+\* ReadPacket: pool buffer + copy + inflate output (bytes.Buffer doubling) + JSON decode = 6 units
+\* (DESIGN.md Appendix B).  HandlePacket works on an already decoded packet of at most one unit; it may
+\* parse it, echo an identifier of it in a reply (marshal buffer doubling + copy) and compress that reply:
+\* a fixed multiple as well, taken generously (12) because the statement only demands "a fixed bound tied
+\* to the maximum packet body size".
+BoundKiB(k) == k * MaxBodyKiB + SlackKiB
 
 VARIABLES written,  \* C01: accepted packets in write order
           nr,       \* C01: ReadPacket calls that returned a packet so far
@@ -67,15 +72,15 @@ TrEof == /\ Is("Eof")
 (* ------------------------------------ C05 ------------------------------------------------- *)
 TrCase == /\ Is("Case") /\ cls' = Ev.cls /\ l' = l + 1 /\ UNCHANGED <<viol, written, nr, ended>>
 
-Call(stage, allowed) ==
+Call(stage, allowed, k) ==
   LET d == cls \o ":" \o stage IN
   Add(  (IF Ev.panicked THEN {V("Panic", d)} ELSE {})
    \cup (IF Ev.timedOut THEN {V("Hang", d)} ELSE {})
-   \cup (IF Ev.allocKiB > BoundKiB THEN {V("AllocBound", d)} ELSE {})
+   \cup (IF Ev.allocKiB > BoundKiB(k) THEN {V("AllocBound", d)} ELSE {})
    \cup (IF ~Ev.panicked /\ ~Ev.timedOut /\ Ev.outcome \notin allowed THEN {V("Outcome", d)} ELSE {}))
 
-TrRead     == Is("Read")     /\ Call("read", {"Packet", "Error"})    /\ l' = l + 1 /\ ended' = TRUE /\ UNCHANGED <<written, nr, cls>>
-TrDispatch == Is("Dispatch") /\ Call("dispatch", {"Reply", "Error"}) /\ l' = l + 1 /\ UNCHANGED <<written, nr, ended, cls>>
+TrRead     == Is("Read")     /\ Call("read", {"Packet", "Error"}, KRead)    /\ l' = l + 1 /\ ended' = TRUE /\ UNCHANGED <<written, nr, cls>>
+TrDispatch == Is("Dispatch") /\ Call("dispatch", {"Reply", "Error"}, KDispatch) /\ l' = l + 1 /\ UNCHANGED <<written, nr, ended, cls>>
 
 (* ------------------------------------ common ---------------------------------------------- *)
 Known == {"Write", "Packet", "Err", "Eof", "Case", "Read", "Dispatch", "End"}
